@@ -18,8 +18,9 @@ def check(ctx):
     ctx.sub(c07.exch_at_clock_instants, 'C14.S3')
     ctx.sub(s4_schedule)
     ctx.sub(s5_outputs)
-    from . import c12
+    from . import c12, c13
     ctx.sub(c12.clock_range_rule, 'C14.S5')
+    ctx.sub(c13.schedules)          # "runs at exactly those scheduled instants": each instant is a clock event of the same range, else construction never runs
 
 
 def s1_loop_table(ctx):
